@@ -149,8 +149,36 @@ def drop_notes_master_rel(data: bytes) -> bytes:
     return write_members(out2)
 
 
+_SLIDE_MEMBER = re.compile(r"^ppt/slides/slide\d+\.xml$")
+
+
+def rewrite_slides(data: bytes, how: str) -> bytes:
+    """What another producer might legally write for the same slides:
+    strip_tblPr  - a:tbl without its optional a:tblPr child
+    pct_literals - (reserved)
+    """
+    A = "{http://schemas.openxmlformats.org/drawingml/2006/main}"
+    out = []
+    for n, b in read_members(data):
+        if _SLIDE_MEMBER.match(n):
+            root = refpkg.parse(b)
+            changed = False
+            if how == "strip_tblPr":
+                for tbl in root.iter(A + "tbl"):
+                    pr = tbl.find(A + "tblPr")
+                    if pr is not None:
+                        tbl.remove(pr)
+                        changed = True
+            if changed:
+                b = etree.tostring(root, xml_declaration=True, encoding="UTF-8", standalone=True)
+        out.append((n, b))
+    return write_members(out)
+
+
 def apply(data: bytes, x: dict) -> bytes:
     kind = x["kind"]
+    if kind == "rewrite_slides":
+        return rewrite_slides(data, x.get("how", "strip_tblPr"))
     if kind == "drop_notes_master_rel":
         return drop_notes_master_rel(data)
     if kind == "rename_slides":
